@@ -241,6 +241,17 @@ class LeanSide:
             if missing:
                 res["ok"] = False
                 res["failures"].append(f"no axiom report for {missing[:5]}")
+        # thorough tier: the toolchain's independent re-checker replays the compiled property modules (and everything they
+        # import from this project) through the kernel again
+        res["leanchecker"] = "not run (quick tier)"
+        if getattr(self, "recheck", False) and p.returncode == 0:
+            lc = subprocess.run(["lake", "env", "leanchecker"] + self.prop_modules, cwd=LEAN_DIR, capture_output=True, text=True)
+            if lc.returncode != 0:
+                res["ok"] = False
+                res["failures"].append("leanchecker rejected a compiled module: " + (lc.stdout + lc.stderr)[-400:])
+                res["leanchecker"] = "failed"
+            else:
+                res["leanchecker"] = f"ok ({len(self.prop_modules)} modules)"
         res["discharged"] = res["obligations"] if res["ok"] else 0
         res["wall_s"] = round(time.time() - t0, 2)
         self.result = res
@@ -493,6 +504,7 @@ def write_evidence(ctx, exit_code):
         "obligations": lean.get("obligations", 0),
         "discharged": lean.get("discharged", 0),
         "checker_cmd": lean.get("checker_cmd", ""),
+        "leanchecker": lean.get("leanchecker", "not run"),
         "trusted_base": [
             "Lean 4.33.0 kernel; axioms used by the property theorems: "
             + ", ".join(sorted({a for axs in lean.get("axioms", {}).values() for a in axs}) or ["none"]),
